@@ -45,6 +45,8 @@ MIN_COUNTERS = {'restricted_calls_judged': 1000, 'islands_kept': 300, 'islands_d
                 'finder_pairs': 8, 'finder_components_compared': 20, 'finder_islands_dropped': 5, 'finder_islands_kept': 5}
 
 E_DEG = 1e-7
+BATCHES_PER_JOB = 1     # importing AegeanTools + oracle self-checks cost ~8 s per worker process
+
 _checked = False
 
 
@@ -295,7 +297,7 @@ def build_region(rng, kind, scene, z, islands_pix, maxdepth):
         verts = []
         for k in range(n):
             a, d = sphere.destination(float(ra), float(dec), rad, t0 - 360.0 * k / n)
-            verts.append([float(a), float(d)])
+            verts.append([float(np.radians(a)), float(np.radians(d))])     # add_poly takes radians
         try:
             reg.add_poly(verts)
         except Exception:
@@ -340,11 +342,12 @@ REGION_KINDS = ['circle', 'circle', 'poly', 'end_pixel_cell', 'end_pixel_cell', 
 # ----------------------------------------------------------------------------- cases
 def cases(seed, tier):
     out = []
-    n = 128 if tier == 'quick' else 1600
+    n = 256 if tier == 'quick' else 4000
     per = 12 if tier == 'quick' else 20
     for k in range(n):
         out.append({'kind': 'islands', 'n_scenes': per, 'seed': [seed, 'islands', k]})
-    out.append({'kind': 'targeted'})
+    for k in range(9):
+        out.append({'kind': 'targeted', 'part': k})
     nf = 32 if tier == 'quick' else 120
     for k in range(nf):
         out.append({'kind': 'finder', 'via': ['object', 'object', 'file', 'object'][k % 4], 'seed': [seed, 'finder', k]})
@@ -365,7 +368,7 @@ def run(case):
             kinds = [REGION_KINDS[int(k)] for k in rng.integers(0, len(REGION_KINDS), 5)]
             eval_scene(o, rng, scene, kinds, distinct)
     elif case['kind'] == 'targeted':
-        for scene, kinds, rng in targeted_scenes():
+        for scene, kinds, rng in targeted_scenes()[3 * case['part']:3 * case['part'] + 3]:
             eval_scene(o, rng, scene, kinds, distinct)
     elif case['kind'] == 'finder':
         finder_case(o, case, distinct)
@@ -396,7 +399,7 @@ def targeted_scenes():
                     lv[rows - 2, 2] = S
                     lv[rows // 2, cols - 3] = S
                 # a ring with a bright foreign pixel inside
-                if rows >= 12:
+                if rows >= 12 and cols >= 16:
                     lv[5:10, 8:15] = 0
                     lv[5, 8:15] = lv[9, 8:15] = F
                     lv[5:10, 8] = lv[5:10, 14] = F
